@@ -8,6 +8,8 @@ Case kinds (first element):
                                call delMatch / addMatch themselves
   ['client', events]           the same (passive callbacks) through a real DBusClientConnection on a fake
                                transport: AddMatch / RemoveMatch texts, signals delivered as bytes
+  ['cdaemon', events]          the same against the reference daemon (a multiset of rule texts that answers
+                               AddMatch / RemoveMatch and forwards a broadcast signal iff a held rule is satisfied)
   ['text', rule]               client.addMatch text of the rule, read back by the real Bus.dbus_AddMatch
   ['rawtext', text]            any text through Bus.dbus_AddMatch (malformed stream)
   ['proxy', declared, msg, cancelled]   RemoteDBusObject.notifyOnSignal on a real connection
@@ -47,6 +49,14 @@ ASSUMPTIONS = [
     'plumbing of callRemote is property C08); an unknown message type name makes router.addMatch raise after '
     'the bus accepted the text, which shows as a failed Deferred',
     'Twisted log output of the exceptions swallowed in Rule.match is discarded',
+    'cdaemon cases: the daemon is the reference daemon of Spec/DaemonSpec.v (per connection a multiset of rule texts; '
+    'AddMatch adds one instance or answers MatchRuleInvalid for a text that cannot be read / an unknown type name, '
+    'RemoveMatch removes one instance or answers MatchRuleNotFound); each call is answered before the next event; '
+    'signals are broadcast (no destination) and injected only if a held text stands for a rule the signal satisfies; '
+    'what a text stands for is taken from the model (rule_string of the rules of the case) and the verdict from '
+    'Spec.MatchSpec; rules satisfy the hypotheses of C12_rule_string (a constraint present, no value with , or =); '
+    'a client that reference-counts identical texts consistently on both AddMatch and RemoveMatch would keep the '
+    'oracle quiet and show only as a correspondence difference of the calls written',
 ]
 
 # ---------------------------------------------------------------------------------------------
@@ -277,6 +287,15 @@ class Impl:
         finally:
             M.DBusMessage._nextSerial = saved
 
+    def error_reply(self, serial, name):
+        M = self.message
+        saved = M.DBusMessage._nextSerial
+        M.DBusMessage._nextSerial = 1
+        try:
+            return bytes(M.ErrorMessage(name, serial, signature='s', body=['refused']).rawMessage)
+        finally:
+            M.DBusMessage._nextSerial = saved
+
     def last_call(self, p):
         """the method call the client wrote last -> (member, interface, destination, path, signature, body, serial)"""
         m = self.message.parseMessage(p.transport.out[-1], [])
@@ -325,6 +344,8 @@ def exc_code(e):
     if isinstance(e, ValueError):
         return 11
     if isinstance(e, RuntimeError):
+        return 11
+    if type(e).__name__ == 'RemoteError':      # an error reply from the daemon
         return 11
     return 'exc:' + type(e).__name__
 
@@ -524,6 +545,128 @@ class ClientRun:
         return [2, called, esc], (log, start, esc)
 
 
+class DaemonRun:
+    """A real DBusClientConnection on a connection to the reference daemon of Spec/DaemonSpec.v.  The Python stand-in
+    keeps its own multiset of rule texts and answers the AddMatch / RemoveMatch calls the client writes; what a text
+    means (which rule it stands for, whether a signal satisfies it, whether the daemon takes it) comes from the model:
+    `rules_by_text` maps the model's text of each rule of the case to the rule, `accepted(text)` and
+    `verdict(rule, msg)` are model / specification answers.  Signals are broadcast: injected only if a held rule is
+    satisfied."""
+
+    def __init__(self, I, rules_by_text, accepted, verdict):
+        self.I = I
+        self.p = I.connect()
+        self.seen = len(self.p.transport.out)
+        self.held = {}             # text -> instances
+        self.rules_by_text = rules_by_text
+        self.accepted = accepted
+        self.verdict = verdict
+        self.registered = {}       # id -> rule, from the implementation's own answers
+        self.removed = set()
+        self.log = None
+        self.flip = False
+
+    def pump(self):
+        """answer every method call written since the last time -> [[0, text] | [1, text], ...]"""
+        p, I = self.p, self.I
+        wires = []
+        while self.seen < len(p.transport.out):
+            raw = p.transport.out[self.seen]
+            self.seen += 1
+            m = I.message.parseMessage(raw, [])
+            if m._messageType != 1:
+                continue
+            ok = True
+            err = None
+            if m.member in ('AddMatch', 'RemoveMatch') and m.interface == 'org.freedesktop.DBus' \
+                    and m.destination == 'org.freedesktop.DBus' and m.signature == 's' and len(m.body) == 1:
+                text = m.body[0]
+                if m.member == 'AddMatch':
+                    wires.append([0, text])
+                    if self.accepted(text):
+                        self.held[text] = self.held.get(text, 0) + 1
+                    else:
+                        ok, err = False, 'org.freedesktop.DBus.Error.MatchRuleInvalid'
+                else:
+                    wires.append([1, text])
+                    if self.held.get(text, 0) > 0:
+                        self.held[text] -= 1
+                    else:
+                        ok, err = False, 'org.freedesktop.DBus.Error.MatchRuleNotFound'
+            else:
+                wires.append(['other', m.member])
+            if m.expectReply:
+                p.dataReceived(I.reply(m.serial) if ok else I.error_reply(m.serial, err))
+        return wires
+
+    def forwards(self, msg):
+        for t, n in self.held.items():
+            if n > 0 and any(self.verdict(r, msg)[0] for r in self.rules_by_text.get(t, [])):
+                return True
+        return False
+
+    def step(self, e):
+        p = self.p
+        if e[0] == 0:
+            tag, raises = e[2][0], e[2][1]
+            box = [None]
+
+            def cb(m):
+                self.log.append(('call', box[0], tag))
+                if raises:
+                    RAISED[0] += 1
+                    raise CbError('callback %d' % tag)
+            self.flip = not self.flip
+            got = []
+            try:
+                d = p.addMatch(cb, **Impl.client_kwargs(e[1], self.flip))
+            except Exception as x:
+                return [0, self.pump(), [0, exc_code(x)]], None
+            d.addCallbacks(lambda i: got.append([1, i]), lambda f: got.append([0, exc_code(f.value)]))
+            wires = self.pump()
+            r = got[0] if got else [0, 'no-completion']
+            if r[0] == 1:
+                box[0] = r[1]
+                self.registered[r[1]] = e[1]
+            return [0, wires, r], None
+        if e[0] == 1:
+            live = e[1] in self.registered
+            got = []
+            try:
+                d = p.delMatch(e[1])
+            except Exception as x:
+                return [1, self.pump(), [0, exc_code(x)]], ('del', live, None)
+            d.addCallbacks(lambda _: got.append([1]), lambda f: got.append([0, exc_code(f.value), f.value]))
+            wires = self.pump()
+            r = got[0] if got else [0, 'no-completion']
+            if r == [1]:
+                if live:
+                    self.removed.add(e[1])
+                self.registered.pop(e[1], None)
+                return [1, wires, [1]], ('del', live, None)
+            return [1, wires, r[:2]], ('del', live, r[2] if len(r) > 2 else None)
+        fwd = self.forwards(e[1])
+        start = dict(self.registered)
+        self.log = []
+        esc = [1]
+        if fwd:
+            try:
+                p.dataReceived(self.I.raw(e[1]))
+            except Exception as x:
+                esc = [0, exc_code(x)]
+        self.pump()
+        log, self.log = self.log, None
+        return [2, 1 if fwd else 0, sorted([i, t] for k, i, t in log)], ('sig', log, start, esc)
+
+
+def dec_cobs(o):
+    if o[0] == 0:
+        return [0, [[w[0], dec_str(w[1])] for w in o[1]], dec_res(o[2])]
+    if o[0] == 1:
+        return [1, [[w[0], dec_str(w[1])] for w in o[1]], [1] if o[2][0] == 1 else [0, o[2][1]]]
+    return [2, o[1], sorted([i, t] for i, t in o[2])]
+
+
 # ---------------------------------------------------------------------------------------------
 # oracle for one route: implementation's calls vs the specification's verdicts
 def route_oracle(log, start, esc, msg, verdict):
@@ -631,6 +774,13 @@ def evaluate(ctx, cases, res):
             pair_lines.append('(12 4 %s %s)' % (dump_rule(rule), dump_msg(msg)))
         return pair_ix[k]
 
+    def want_text(rule):
+        k = key(('text', canon_rule(rule)))
+        if k not in pair_ix:
+            pair_ix[k] = len(pair_lines)
+            pair_lines.append('(12 1 %s)' % dump_rule(rule))
+        return pair_ix[k]
+
     lines = []
     for c in cases:
         kind = c[0]
@@ -644,6 +794,14 @@ def evaluate(ctx, cases, res):
                     rules += [a[1] for a in e[2][2] if a[0] == 1]
             msgs = [e[1] for e in c[1] if e[0] == 2]
             for r in rules:
+                for m in msgs:
+                    want(r, m)
+        elif kind == 'cdaemon':
+            lines.append('(12 5 (%s))' % ' '.join(dump_event(e) for e in c[1]))
+            rules = [e[1] for e in c[1] if e[0] == 0]
+            msgs = [e[1] for e in c[1] if e[0] == 2]
+            for r in rules:
+                want_text(r)
                 for m in msgs:
                     want(r, m)
         elif kind == 'text':
@@ -756,6 +914,71 @@ def evaluate(ctx, cases, res):
                                     'text:remove-differs-from-add')
                 for rule, text in run.texts:
                     late.append((c, None, 'TEXT', rule, text))
+        elif kind == 'cdaemon':
+            events = c[1]
+            by_text, acc = {}, {}
+            for e in events:
+                if e[0] == 0:
+                    to = pair_outs[pair_ix[key(('text', canon_rule(e[1])))]]
+                    t = dec_str(to[0])
+                    if canon_rule(e[1]) not in [canon_rule(r) for r in by_text.setdefault(t, [])]:
+                        by_text[t].append(e[1])
+                    acc[t] = to[2] == 1
+            run = DaemonRun(I, by_text, lambda t: acc.get(t, True), verdict)
+            nontrivial = False
+            differs = False
+            for n, (e, mo) in enumerate(zip(events, o)):
+                ob, extra = run.step(e)
+                model_ob = dec_cobs(mo[0])
+                if e[0] == 1 and extra[1] and ob[2] != [1]:
+                    violate(c, 'event %d: delMatch(%r) of a live rule failed (%r, wire %r): RemoveMatch was refused'
+                            % (n, e[1], extra[2], ob[1]), 'client:remove-refused')
+                if e[0] == 2:
+                    kind_, log, start, esc = extra
+                    dist['routes'] += 1
+                    dist['callbacks_called'] += len(ob[2])
+                    dist['daemon_forwarded'] = dist.get('daemon_forwarded', 0) + ob[1]
+                    if start:
+                        nontrivial = True
+                    found = False
+                    if esc != [1]:
+                        found = True
+                        violate(c, 'event %d: dataReceived let an exception escape (%r)' % (n, esc),
+                                'route:exception-escaped')
+                    calls = {}
+                    for x in log:
+                        calls[x[1]] = calls.get(x[1], 0) + 1
+                    for i, cnt in sorted(calls.items(), key=repr):
+                        if i not in start:
+                            found = True
+                            violate(c, 'event %d: callback of rule %r called though the rule is %s'
+                                    % (n, i, 'removed' if i in run.removed else 'not registered'),
+                                    'client:removed-rule-invoked')
+                        elif not verdict(start[i], e[1])[0]:
+                            found = True
+                            late.append((c, 'event %d: callback of rule %r %r called for a signal that does not '
+                                         'satisfy it' % (n, i, start[i]), 'match:called-unsatisfied', start[i], e[1]))
+                        elif cnt > 1:
+                            found = True
+                            violate(c, 'event %d: callback of rule %r called %d times' % (n, i, cnt),
+                                    'route:called-twice')
+                    for i, r in sorted(start.items()):
+                        if verdict(r, e[1])[0] and i not in calls:
+                            found = True
+                            violate(c, 'event %d: rule %r %r is live and the signal satisfies it, but its callback was '
+                                    'not called (the daemon holds %r, signal %s)'
+                                    % (n, i, r, dict((t, k) for t, k in run.held.items() if k),
+                                       'forwarded' if ob[1] else 'not forwarded'), 'client:live-rule-not-served')
+                    if mo[1] != [] and not differs and not found:
+                        exp = sorted([i, t] for i, t in mo[1][0])
+                        if ob[2] != exp:
+                            violate(c, 'event %d: callbacks called %r, the specification expects %r'
+                                    % (n, ob[2], exp), 'route:not-the-expected-callbacks')
+                if ob != model_ob and not differs:
+                    differs = True             # keep going: the oracle needs the implementation's answers only
+                    res.disagree(c, ['event', n, ob], ['event', n, model_ob])
+            res.count(c, nontrivial=nontrivial)
+            res.traces += 1
         elif kind == 'text':
             rule = c[1]
             mtext = dec_str(o[0])
@@ -1144,6 +1367,57 @@ def gen_hist_cases(ctx):
         yield ['client', gen_history(rng, False, real_only=True, maxlen=10)]
 
 
+def gen_cdaemon_cases(ctx):
+    """client histories against the reference daemon: few rules, so that the SAME rule text is registered several
+    times and some of the instances removed; broadcast signals"""
+    rng = ctx.rng
+    mA = ['real', 4, '/a/b', 'org.ex.I', 'M', None, ':1.7', None, [['s', 'x']]]
+    mB = ['real', 4, '/a/bc', 'org.ex.J', 'N', None, ':1.8', None, None]
+    rA = ['signal', None, 'org.ex.I', None, None, '/a', None, [[0, 'x']], [], None]
+    rB = ['signal', ':1.8', None, 'N', '/a/bc', None, None, [], [], None]
+    alphabet = [[0, rA, None], [0, rB, None], [1, 0], [1, 1], [1, 2], [2, mA], [2, mB]]
+    L = ctx.n(4, 5)
+    for n in range(1, L + 1):
+        for t in itertools.product(range(len(alphabet)), repeat=n):
+            if not any(alphabet[x][0] == 0 for x in t):
+                continue
+            ev = []
+            for j, x in enumerate(t):
+                e = list(alphabet[x])
+                if e[0] == 0:
+                    e[2] = [j, j % 3 == 2, []]
+                ev.append(e)
+            if ev[-1][0] != 2:
+                ev += [[2, mA], [2, mB]]
+            yield ['cdaemon', ev]
+    for _ in range(ctx.n(600, 8000)):
+        msgs = []
+        while len(msgs) < rng.choice([1, 2, 3]):
+            m = gen_msg(rng)
+            if m[0] == 'real' and m[1] == 4:
+                m = list(m)
+                m[5] = None                  # broadcast
+                msgs.append(m)
+        rules = []
+        while len(rules) < rng.choice([1, 2, 2, 3]):
+            r = gen_rule_for(rng, rng.choice(msgs))
+            if clean_rule(r):
+                rules.append(r)
+        ev = []
+        nids = 0
+        for j in range(rng.randrange(3, 13)):
+            q = rng.random()
+            if q < 0.4 or nids == 0 and q < 0.8:
+                ev.append([0, rng.choice(rules), [j, rng.random() < 0.25, []]])
+                nids += 1
+            elif q < 0.65:
+                ev.append([1, rng.randrange(0, nids + 1)])
+            else:
+                ev.append([2, rng.choice(msgs)])
+        ev.append([2, rng.choice(msgs)])
+        yield ['cdaemon', ev]
+
+
 def gen_text_cases(ctx):
     rng = ctx.rng
     yield ['text', list(EMPTY_RULE)]
@@ -1198,12 +1472,16 @@ def run(ctx, res):
                 'independent (15%%); (b) histories on a real MessageRouter: every history of length <= %d over '
                 '{add satisfied rule, add unsatisfied rule with raising callback, del 0, del 1, route}, 36 '
                 're-entrant three-rule scenarios, random histories of 3..15 events (35%% with callbacks that call '
-                'delMatch / addMatch), the same through a real DBusClientConnection; (c) AddMatch texts read back by '
+                'delMatch / addMatch), the same through a real DBusClientConnection; (b2) client histories against the reference '
+                'daemon (multiset of rule texts): every history of length <= %d over {add A, add B, del 0, del 1, del 2, '
+                'signal A, signal B} containing an add (the same text registered repeatedly, instances removed), and random '
+                'ones over 1-3 rules; (c) AddMatch texts read back by '
                 'the real Bus.dbus_AddMatch, and a malformed text stream; (d) proxy subscriptions: 8 declared '
                 'signatures x 8 bodies x cancelled or not, plus random. non-trivial = the rule has a constraint / a '
-                'route with a registered rule / non-empty text; distinct by hash' % ctx.n(4, 5))
+                'route with a registered rule / non-empty text; distinct by hash' % (ctx.n(4, 5), ctx.n(4, 5)))
     evaluate(ctx, gen_pairs(ctx), res)
     evaluate(ctx, gen_hist_cases(ctx), res)
+    evaluate(ctx, gen_cdaemon_cases(ctx), res)
     evaluate(ctx, gen_text_cases(ctx), res)
     evaluate(ctx, gen_proxy_cases(ctx), res)
     res.exhaustive = True
